@@ -183,6 +183,11 @@ def inhabits(ann_node, v, env):
       if base == "Optional":
         rs.append(v is None)
       return True if any(r is True for r in rs) else (None if None in rs else False)
+  if isinstance(ann_node, pyast.Subscript) and adm.strip_mod(pyast.unparse(ann_node.value)) == "Set":
+    # typing.Set (imported in the prelude) is builtins.set, not the collections.abc.Set ABC
+    if not isinstance(v, set):
+      return False
+    return all(inhabits(ann_node.slice, x, env) is not False for x in v)
   return adm.admits(adm.from_ast(ann_node), v, env)
 
 
